@@ -136,9 +136,10 @@ def run(pid, mod, tier, seed):
         ev["coverage"].pop("transitions")
         ev["coverage"].pop("traces_validated_against_impl")
         ev["coverage"]["executions_on_impl"] = st.traces
-    os.makedirs(os.path.join(ROOT, "evidence"), exist_ok=True)
-    with open(os.path.join(ROOT, "evidence", "%s.json" % pid), "w") as f:
-        json.dump(ev, f, indent=1, sort_keys=True, default=str)
+    if not os.environ.get("VERIF_KEEP_EVIDENCE"):   # set only by tools/try_seed.sh (runs against a deliberately broken tree)
+        os.makedirs(os.path.join(ROOT, "evidence"), exist_ok=True)
+        with open(os.path.join(ROOT, "evidence", "%s.json" % pid), "w") as f:
+            json.dump(ev, f, indent=1, sort_keys=True, default=str)
     print("%s %s seed=%d: states=%d transitions=%d executions=%d classes=%d nontrivial=%d outdom=%d exhaustive=%s wall=%.1fs" % (
         pid, tier, seed, st.states, st.transitions, st.traces, len(st.classes), len(st.nontrivial_classes), st.outdom, exhaustive, wall))
     for k, v in sorted(st.tags.items()):
